@@ -48,14 +48,21 @@ Inductive cin :=
 | CRound (k : list Z) (w : nat -> nat -> Z) (ub vb : basis Z VZ)
 | CDot (k : list Z) (w : nat -> nat -> Z) (ub vb : basis Z VZ) (x : list Z) (D : list nat)
 | CVec (dim n : nat)
-| CBmat (widths : list nat).
+| CBmat (widths : list nat)
+| CDofs (gs : list nat) (cn : list (list (list nat))) (d : list nat)
+| CSplitC (gs : list nat) (cn : list (list (list nat))) (ls : list (list nat)) (n : nat)
+| CSplitV (gs : list nat) (cn : list (list (list nat))) (d : list nat) (dim n : nat)
+| CDeduce (ref : list nat) (ls : list (list nat)) (n : nat).
 Inductive cout :=
 | OCoo (c : option (list (list nat) * list Z * list nat))
 | ODense (a : option (list (list Z)))
 | OLocal (l : option (list (list (list Z))))
 | OData (d : option (list Z))
 | OPairs (p : list (nat * nat))
-| ONats (l : list nat).
+| ONats (l : list nat)
+| ONatss (l : list (list nat)).
+Definition mktopo (gs : list nat) (cn : list (list (list nat))) : topo :=
+  mkTopo (fun K => nth K gs 0) (fun K => nth K cn []) (nth 3 gs 0).
 Definition obind {A B} (o : option A) (f : A -> option B) : option B := match o with Some a => f a | None => None end.
 Fixpoint sequence {A} (l : list (option A)) : option (list A) :=
   match l with [] => Some [] | o :: r => obind o (fun a => obind (sequence r) (fun t => Some (a :: t))) end.
@@ -75,6 +82,10 @@ Definition run (c : cin) : cout :=
   | CDot k w ub vb x D => OData (obind (asmZ k w ub vb) (fun c => gen_coo_dot Z 0%Z Z.add Z.mul c x D))
   | CVec dim n => OPairs (map (gen_vector_decode dim) (seq 0 n))
   | CBmat widths => ONats (gen_bmat_blocks widths)
+  | CDofs gs cn d => ONatss (gen_element_dofs (mktopo gs cn) (fun K => nth K d 0))
+  | CSplitC gs cn ls n => ONats (gen_composite_split (mktopo gs cn) ls n)
+  | CSplitV gs cn d dim n => ONats (gen_vector_split (mktopo gs cn) (fun K => nth K d 0) dim n)
+  | CDeduce ref ls n => OPairs (map (gen_deduce_bfun ref ls) (seq 0 n))
   end.
 Definition natpair_eqb (a b : nat * nat) := Nat.eqb (fst a) (fst b) && Nat.eqb (snd a) (snd b).
 Definition cout_eqb (a b : cout) : bool :=
@@ -85,11 +96,12 @@ Definition cout_eqb (a b : cout) : bool :=
   | OData x, OData y => option_eqb zs_eqb x y
   | OPairs x, OPairs y => list_eqb natpair_eqb x y
   | ONats x, ONats y => nats_eqb x y
+  | ONatss x, ONatss y => natss_eqb x y
   | _, _ => false
   end.
 '''
 IMPORTS = ('From Coq Require Import List Arith Bool ZArith.\n'
-           'Require Import Base.C01_Sums Model.C01_Assembly Model.C19_Blocks Gen.C01Gen Gen.C19Gen.')
+           'Require Import Base.C01_Sums Model.C01_Assembly Model.C19_Blocks Model.C19_Composite Gen.C01Gen Gen.C19Gen Gen.C19Comp.')
 
 
 def observe_vector_decode(elem, dim, mesh):
@@ -113,6 +125,93 @@ def observe_vector_decode(elem, dim, mesh):
             return None, f'basis function {i}: scalar matches {match}'
         out.append((match[0], n))
     return out, None
+
+
+def _layout(e, dim3):
+    return [int(e.nodal_dofs), int(e.edge_dofs) if dim3 else 0, int(e.facet_dofs), int(e.interior_dofs)]
+
+
+def _topo_terms(m):
+    dim3 = m.dim() == 3
+    nt = m.nelements
+    gs = [m.nvertices, m.nedges if dim3 else 0, m.nfacets if m.dim() >= 2 else 0, nt]
+    cn = [m.t.tolist(), m.t2e.tolist() if dim3 else [], m.t2f.tolist() if m.dim() >= 2 else [], [list(range(nt))]]
+    return cnats(gs), clist([clist([cnats(r) for r in tab]) for tab in cn]), dim3
+
+
+def correspond_tables(ctx, cases):
+    """Dofs.element_dofs, split_indices and _deduce_bfun of the real classes vs the regenerated models"""
+    import skfem
+    from skfem.assembly import Dofs, CellBasis
+    from .. import c01_oracle as O1
+    from ..c19_oracle import VEC_ELEMS
+    rng = ctx.rng
+    meshes = ['tri-delaunay', 'quad-jiggled', 'tet-struct', 'hex-jiggled', 'line-random', 'tri-struct', 'tet-delaunay']
+    for c in range(ctx.n(14, 60)):
+        mname = meshes[c % len(meshes)]
+        fam = O1.FAMILY[mname]
+        m = O1.make_mesh(mname, rng.randrange(10 ** 6))
+        spec = rng.choice(VEC_ELEMS[fam])
+        elem = O1.make_elem(spec)
+        gs, cn, dim3 = _topo_terms(m)
+        info = {'mesh': mname, 'elem': spec, 'nelements': int(m.nelements)}
+        basis = _run(ctx, 'tables:basis', 'CellBasis construction', info, lambda: CellBasis(m, elem, intorder=1))
+        if basis is None:
+            continue
+        ctx.hist('tables element', spec)
+        whole = _layout(elem, dim3)
+        cases.append((f'(CDofs {gs} {cn} {cnats(whole)})', f'(ONatss {clist([cnats(r) for r in basis.dofs.element_dofs.tolist()])})',
+                      ('dofs', True, info)))
+        ix = _run(ctx, 'tables:split_indices', 'split_indices', info, lambda: basis.split_indices())
+        if ix is None:
+            continue
+        if spec.startswith('C:'):
+            ls = [_layout(e, dim3) for e in elem.elems]
+            lst = clist([cnats(l) for l in ls])
+            for n in range(len(ls)):
+                cases.append((f'(CSplitC {gs} {cn} {lst} {cnat(n)})', f'(ONats {cnats(ix[n].tolist())})', ('splitc', len(ls) >= 2, info)))
+                # the component's own Dofs table (what split_bases builds)
+                cb = Dofs(m, elem.elems[n])
+                cases.append((f'(CDofs {gs} {cn} {cnats(ls[n])})', f'(ONatss {clist([cnats(r) for r in cb.element_dofs.tolist()])})',
+                              ('dofs', True, info)))
+            rd = elem.refdom
+            ref = [rd.nnodes, rd.nedges if dim3 else 0, rd.nfacets if m.dim() >= 2 else 0, 1]
+            nb = int(sum(elem._bfun_counts()))
+            obs = _run(ctx, 'tables:_deduce_bfun', 'ElementComposite._deduce_bfun', info,
+                       lambda: [tuple(int(x) for x in elem._deduce_bfun(i)) for i in range(nb)])
+            if obs is not None:
+                cases.append((f'(CDeduce {cnats(ref)} {lst} {cnat(nb)})', '(OPairs ' + clist([f'({cnat(a)}, {cnat(b)})' for a, b in obs]) + ')',
+                              ('deduce', len(ls) >= 2, info)))
+        else:
+            d = _layout(elem.elem, dim3)
+            for n in range(elem.dim):
+                cases.append((f'(CSplitV {gs} {cn} {cnats(d)} {cnat(elem.dim)} {cnat(n)})', f'(ONats {cnats(ix[n].tolist())})',
+                              ('splitv', elem.dim >= 2, info)))
+    # _deduce_bfun on synthetic layouts (components with very different layouts), via a duck-typed element list
+    from skfem.element import ElementComposite
+    for c in range(ctx.n(10, 40)):
+        M = rng.randint(1, 4)
+        ref = [rng.randint(1, 4), rng.randint(0, 3), rng.randint(0, 3), 1]
+        ls = [[rng.randint(0, 2) for _ in range(4)] for _ in range(M)]
+
+        class _E:                                    # only what _deduce_bfun reads
+            def __init__(self, l):
+                self.nodal_dofs, self.edge_dofs, self.facet_dofs, self.interior_dofs = l
+
+            def _bfun_counts(self):
+                return np.array([self.nodal_dofs * ref[0], self.edge_dofs * ref[1], self.facet_dofs * ref[2], self.interior_dofs])
+        host = ElementComposite.__new__(ElementComposite)
+        host.elems = [_E(l) for l in ls]
+        nb = int(sum(sum(e._bfun_counts()) for e in host.elems))
+        info = {'ref': ref, 'layouts': ls}
+        if nb == 0:
+            continue
+        obs = _run(ctx, 'tables:_deduce_bfun', 'ElementComposite._deduce_bfun on synthetic layouts', info,
+                   lambda: [tuple(int(x) for x in ElementComposite._deduce_bfun(host, i)) for i in range(nb)])
+        if obs is not None:
+            cases.append((f'(CDeduce {cnats(ref)} {clist([cnats(l) for l in ls])} {cnat(nb)})',
+                          '(OPairs ' + clist([f'({cnat(a)}, {cnat(b)})' for a, b in obs]) + ')', ('deduce', M >= 2, info)))
+            ctx.hist('synthetic composite components', M)
 
 
 def correspond(ctx, gen_ok):
@@ -232,6 +331,7 @@ def correspond(ctx, gen_ok):
         if list(M.blocks) != want:
             ctx.fail(BMAT_KEY if n >= 4 else 'bmat-blocks', 'skfem.utils.bmat(...).blocks are not the prefix sums of the block-column widths',
                      dict(info, got=[int(x) for x in M.blocks], expected=want))
+    correspond_tables(ctx, cases)
     if gen_ok:
         ctx.corr('blocks', IMPORTS, 'run', 'cout_eqb', cases, per_file=25, defs=DEFS, nontrivial=lambda r: r[1])
         ctx.sample({'kind': 'stub local matrices (input term, implementation output)', 'input': cases[0][0][:500], 'output': cases[0][1][:300]})
@@ -256,15 +356,18 @@ def run(ctx):
     try:
         ctx.write_gen('C01Gen', c01_translate.translate())
         ctx.write_gen('C19Gen', c19_translate.translate(known_bmat=known_bmat))
+        ctx.write_gen('C19Comp', c19_translate.translate_comp())
     except TranslateError as e:
         ctx.broke('translator', 'c19_translate / c01_translate', e)
         gen_ok = False
     comp_ok = False
     if gen_ok:
-        gen_ok = ctx.compile_dyn(['gen/C01Gen.v', 'gen/C19Gen.v'])
+        gen_ok = ctx.compile_dyn(['gen/C01Gen.v', 'gen/C19Gen.v', 'gen/C19Comp.v'])
     if gen_ok:
         ctx.write('dyn/C01Tie.v', open(os.path.join(COQ, 'dyn', 'C01', 'C01Tie.v')).read())
-        ctx.compile_dyn(['dyn/C01Tie.v'] + ctx.copy_dyn())
+        dyn = ctx.copy_dyn()
+        order = ['dyn/C19Tie.v', 'dyn/C19Bmat.v', 'dyn/C19CompTie.v']
+        ctx.compile_dyn(['dyn/C01Tie.v'] + order + [f for f in dyn if f not in order])
         if known_bmat:
             # the finding is listed: its Coq side is the refutation; if that no longer compiles the entry is stale
             ctx.write('dyn/C19BmatKnown.v', 'From Coq Require Import List.\nImport ListNotations.\n'
